@@ -143,6 +143,16 @@ def allowed (p : Platform) (meth : String) (r : Recover) (e : Err) (env : Env) (
    | .procfsEnoent => e.errno == .ENOENT && o == contract f ⟨.ESRCH, none⟩ env
    | .goneMeansNsp => env.state == .gone && o == .nsp env.pid true)
 
+/-- Two-fault sequences. The first failing call was recovered from (one of the documented
+    recoverable situations above, or the partial-copy retry), so the method is still running;
+    the second failing call is then judged exactly like a single failure at that call: the
+    contract cell of the *second* error, or what is documented as recoverable at that call. What
+    the first error was does not widen or narrow this (in particular the outcome must not be the
+    translation of the first, already recovered, error unless that is also the second's cell). -/
+def allowed2 (p : Platform) (meth : String) (_call1 : String) (_e1 : Err) (call2 : String) (e2 : Err) (env : Env)
+    (o : Outcome) : Bool :=
+  allowed p meth (recoverable p meth call2) e2 env o
+
 /-! ## 3. Record layout -/
 
 /-- label the C source (`Py_BuildValue` comment) gives the slot that the Python side calls `key` -/
@@ -288,6 +298,28 @@ def slotNamedFor : List (String × List (String × String × String × String)) 
         ("num_handles", "", "#0", "pinfo_map.num_handles"),
         ("num_threads", "", "#0", "pinfo_map.num_threads"),
         ("open_files", "popenfile", "fd", "const:-1") ]) ]
+
+/-- The alternative paths: slots read only when the fast per-process call was refused — the
+    Windows "attempting <x>() fallback (slower)" branches and Solaris `uids()/gids()` when
+    `/proc/<pid>/cred` is denied. (method, slot) per module; every other slot read is on the main path. -/
+def fallbackSlots : List (String × List (String × String)) :=
+  [ ("bsd", []), ("osx", []),
+    ("sunos",
+      [ ("gids", "proc_info_map.gid"), ("gids", "proc_info_map.egid"),
+        ("uids", "proc_info_map.uid"), ("uids", "proc_info_map.euid") ]),
+    ("aix", []),
+    ("windows",
+      [ ("_get_raw_meminfo", "pinfo_map.num_page_faults"), ("_get_raw_meminfo", "pinfo_map.peak_wset"),
+        ("_get_raw_meminfo", "pinfo_map.wset"), ("_get_raw_meminfo", "pinfo_map.peak_paged_pool"),
+        ("_get_raw_meminfo", "pinfo_map.paged_pool"), ("_get_raw_meminfo", "pinfo_map.peak_non_paged_pool"),
+        ("_get_raw_meminfo", "pinfo_map.non_paged_pool"), ("_get_raw_meminfo", "pinfo_map.pagefile"),
+        ("_get_raw_meminfo", "pinfo_map.peak_pagefile"), ("_get_raw_meminfo", "pinfo_map.mem_private"),
+        ("cpu_times", "pinfo_map.user_time"), ("cpu_times", "pinfo_map.kernel_time"),
+        ("create_time", "pinfo_map.create_time"),
+        ("io_counters", "pinfo_map.io_rcount"), ("io_counters", "pinfo_map.io_wcount"),
+        ("io_counters", "pinfo_map.io_rbytes"), ("io_counters", "pinfo_map.io_wbytes"),
+        ("io_counters", "pinfo_map.io_count_others"), ("io_counters", "pinfo_map.io_bytes_others"),
+        ("num_handles", "pinfo_map.num_handles") ]) ]
 
 /-- field of Windows `pmem` / `pio` that the k-th slot of the fall-back tuples stands for -/
 def winFallbackField : List (String × String) :=
